@@ -58,7 +58,7 @@ def step (s : St) (line : String) : St × List String :=
   | ["hostsfile", port, hex] =>
     match port.toNat?, bytesOfHex hex with
     | some port, some b =>
-      let r := hostLoop (rawLines Gen.C13.READLINE_MAX b)
+      let r := hostLoop (helperLines b)
       (s, [s!"blocks={showBlocks port [] r.1} end={showEnd r.2}"])
     | _, _ => (s, ["bad-op"])
   | ["#flush"] => (s, [])
